@@ -57,12 +57,13 @@ const (
 	OpRecvAll // receive until a terminal result
 	OpSendAll // send every remaining planned message
 	OpReadTargets
+	OpStopServer // handler: Stop the reverse tunnel server that is serving this very RPC
 )
 
 var opNames = map[int]string{OpStart: "start", OpSend: "send", OpCloseSend: "close-send", OpRecv: "recv", OpHeader: "header",
 	OpTrailer: "trailer", OpCancel: "cancel", OpSleep: "sleep", OpInvoke: "invoke", OpSetHeader: "set-header", OpSendHeader: "send-header",
 	OpSetTrailer: "set-trailer", OpReturn: "return", OpAwaitCtx: "await-ctx", OpProbe: "probe", OpPause: "pause", OpRecvAll: "recv-all",
-	OpSendAll: "send-all", OpReadTargets: "read-targets"}
+	OpSendAll: "send-all", OpReadTargets: "read-targets", OpStopServer: "stop-server"}
 
 // Op is one step of a caller or handler script.
 type Op struct {
@@ -596,6 +597,17 @@ func (h *hstream) exec(actor string, ops []Op) (bool, error) {
 			// ... and read again
 			md2, ok2 := grpctunnel.TunnelMetadataFromIncomingContext(h.ctx)
 			evReturn(h.rpc, actor, OpProbe, 0, &OpResult{Extra: map[string]any{"info": hi, "tunnel_md_again": touch.CopyMD(md2), "tunnel_md_again_ok": ok2}})
+		case OpStopServer:
+			// an administrative "shut yourself down" RPC delivered over the
+			// tunnel: Stop cancels this handler's context and returns without
+			// waiting for the handler (which is the one calling it)
+			evInvoke(h.rpc, actor, OpStopServer, 0, 0)
+			t := h.ts.W.Tunnels[h.plan.Tunnel]
+			simrt.Count(CntFaultStop, 1)
+			simrt.Emit(simrt.Event{Kind: EvFault, S: "teardown", A: -1})
+			callStops(t, 1)
+			simrt.Emit(simrt.Event{Kind: EvTunnel, S: "fault-returned", A: int64(t.Idx), S2: "stop"})
+			evReturn(h.rpc, actor, OpStopServer, 0, &OpResult{})
 		case OpReturn:
 			evInvoke(h.rpc, actor, OpReturn, 0, 0)
 			if op.St == nil || op.St.Code == 0 {
@@ -895,6 +907,13 @@ func (c *cstream) recvOne(actor string) (bool, error) {
 	// returns, with or without an error: generated code (CloseAndRecv, unary
 	// stubs) calls RecvMsg exactly once and takes a nil error for status OK.
 	single := !shapeServerStreams(c.p.Shape)
+	if err == nil && !single && idx == 0 && c.p.OptHeader {
+		// headers are there no later than the first response message, also
+		// in the locations given with grpc.Header (an interceptor reading
+		// them while the stream is still open)
+		r := c.p.Res
+		res.Extra = map[string]any{"hdr_target_inflight": touch.LoadMD(&r.HdrTarget), "hdr_target0_inflight": touch.LoadMD(&r.HdrTarget0), "two_targets": c.p.ID%2 == 0}
+	}
 	if err != nil || single {
 		res.Terminal = true
 		// Immediately after the terminal result (no scheduling point in
